@@ -87,6 +87,15 @@ func c10Setup(c *fw.Ctx, proxied bool) *c10Env {
 				r.Shuffle(len(pb), func(a, b int) { pb[a], pb[b] = pb[b], pb[a] })
 			}
 		}
+		if c.Case%4 == 1 && i == 0 {
+			// every fourth cluster: several partition keys listed in an order that is not the sorted one, on at
+			// least two partitions (leader and followers must hash the key values in one and the same order)
+			pb = []string{"s", "n", "b"}
+			t.GroupBy = []string{"s", "n", "b", "m"}
+			if e.N < 2 {
+				e.N = 2 + r.Intn(3)
+			}
+		}
 		e.specs = append(e.specs, t)
 		e.partBy = append(e.partBy, pb)
 		cdefs = append(cdefs, cluster.TableDef{Name: t.Name, SQL: t.SQL(), Retention: 48 * time.Hour, MaxFlush: time.Duration(50+r.Intn(500)) * time.Millisecond, PartitionBy: append([]string(nil), pb...)})
